@@ -15,19 +15,36 @@ static FILE_NO: AtomicU64 = AtomicU64::new(0);
 
 pub type Driver = fn(&[u8], &Ctx) -> &'static str;
 
-/// write `data` to a fresh file, run `f` on the path, remove the file
+thread_local! {
+    /// per-thread directory: creating / unlinking files in one shared tmpfs directory from 16 threads serialises on the directory lock
+    static THREAD_DIR: std::cell::RefCell<Option<PathBuf>> = const { std::cell::RefCell::new(None) };
+}
+
+/// write `data` to this thread's file for `ext` (overwritten in place), run `f` on the path
 fn with_file(ctx: &Ctx, ext: &str, data: &[u8], f: impl FnOnce(&std::path::Path) -> &'static str) -> &'static str {
-    let p = ctx.dir.join(format!("f{}.{ext}", FILE_NO.fetch_add(1, Ordering::Relaxed)));
+    let dir = THREAD_DIR.with(|d| {
+        let mut d = d.borrow_mut();
+        if d.is_none() {
+            let p = ctx.dir.join(format!("t{}", FILE_NO.fetch_add(1, Ordering::Relaxed)));
+            if let Err(e) = std::fs::create_dir_all(&p) {
+                vkit::machinery!("cannot create {}: {e}", p.display());
+            }
+            // the shared index of split-index seeds must sit next to the index file
+            if let Ok(rd) = std::fs::read_dir(&ctx.dir) {
+                for e in rd.flatten() {
+                    if e.file_name().to_string_lossy().starts_with("sharedindex.") {
+                        let _ = std::fs::copy(e.path(), p.join(e.file_name()));
+                    }
+                }
+            }
+            *d = Some(p);
+        }
+        d.clone().expect("set above")
+    });
+    let p = dir.join(format!("f.{ext}"));
     if let Err(e) = std::fs::write(&p, data) {
         vkit::machinery!("cannot write {}: {e}", p.display());
     }
-    struct Rm(PathBuf);
-    impl Drop for Rm {
-        fn drop(&mut self) {
-            let _ = std::fs::remove_file(&self.0);
-        }
-    }
-    let _rm = Rm(p.clone());
     f(&p)
 }
 
@@ -853,27 +870,39 @@ fn fetch_response(d: &[u8], version: gix_transport::Protocol) -> &'static str {
     let mut with_pack = false;
     let modes: &[(bool, bool)] = if version == gix_transport::Protocol::V2 { &[(true, true)] } else { &[(true, true), (true, false), (false, true), (false, false)] };
     for &(expects_pack, negotiate) in modes {
-        let mut rd = gix_packetline::StreamingPeekableIter::new(std::io::Cursor::new(d), DELIMS, false);
-        rd.fail_on_err_lines(true);
-        let mut progress = 0usize;
-        let mut r = rd.as_read_with_sidebands(Box::new(|_e: bool, t: &[u8]| {
-            progress += t.len();
-            gix_packetline::read::ProgressAction::Continue
-        }) as gix_transport::client::HandleProgress<'_>);
-        if let Ok(resp) = Response::from_line_reader(version, &mut r, expects_pack, negotiate) {
-            any_ok = true;
-            black_box((resp.acknowledgements().len(), resp.shallow_updates().len(), resp.wanted_refs().len()));
-            for a in resp.acknowledgements() {
-                black_box(a.id());
+        // `sideband_all`: progress handler installed before the response is parsed (server capability), otherwise only for the pack
+        for sideband_all in [false, true] {
+            let mut rd = gix_packetline::StreamingPeekableIter::new(std::io::Cursor::new(d), DELIMS, false);
+            rd.fail_on_err_lines(true);
+            let progress = std::cell::Cell::new(0usize);
+            let handler = || -> gix_transport::client::HandleProgress<'_> {
+                Box::new(|_e: bool, t: &[u8]| {
+                    progress.set(progress.get() + t.len());
+                    gix_packetline::read::ProgressAction::Continue
+                })
+            };
+            let mut r: gix_packetline::read::WithSidebands<'_, _, gix_transport::client::HandleProgress<'_>> = rd.as_read_without_sidebands();
+            if sideband_all {
+                r.set_progress_handler(Some(handler()));
             }
-            if resp.has_pack() {
-                with_pack = true;
-                let mut out = Vec::new();
-                black_box(r.read_to_end(&mut out).is_ok());
+            if let Ok(resp) = Response::from_line_reader(version, &mut r, expects_pack, negotiate) {
+                any_ok = true;
+                black_box((resp.acknowledgements().len(), resp.shallow_updates().len(), resp.wanted_refs().len()));
+                for a in resp.acknowledgements() {
+                    black_box(a.id());
+                }
+                if resp.has_pack() {
+                    with_pack = true;
+                    if !sideband_all {
+                        r.set_progress_handler(Some(handler()));
+                    }
+                    let mut out = Vec::new();
+                    black_box(r.read_to_end(&mut out).is_ok());
+                }
             }
+            drop(r);
+            black_box(progress.get());
         }
-        drop(r);
-        black_box(progress);
     }
     match (any_ok, with_pack) {
         (true, true) => "ok-pack",
